@@ -8,11 +8,17 @@ Exhaustive enumeration (driver E1). Laws, each judged on the real lena code:
                        fill/compute, fill/request, plain Sequence; tuple, bare and explicit forms;
                        LenaStopFill at every fill index), every bufsize in {1..n+1, 1000, None}, both
                        copy_buf, flows 1..n.
+  run (further forms)  the same law for branch lists in which one branch has a further FORM of its
+                       kind: an instance of a user subclass of Source / FillComputeSeq / FillRequestSeq
+                       / Sequence, or a Split given as a branch (every inner list of length 0..2 over
+                       one branch per kind; its kind follows from the Split docstring: common
+                       fill/compute or fill/request type, else an element with run).
   bufsize-independence the per-branch (per-tag) results of fill/compute and per-value (map / filter)
                        branches are the same for every bufsize (relation between real runs only).
   empty-identity       Split([]).run(flow) yields the values it receives.
   common-fc/-fr/-source Split of one branch type: fill+compute, fill+request, __call__ equal the
-                       concatenation of the branches' own methods, over every event history.
+                       concatenation of the branches' own methods, over every event history; the
+                       branches include subclass instances and nested Splits of that type.
   zip-fc/-fr           Zip of such branches yields the tuples of the i-th results, stops at the
                        shortest, every branch context recoverable from context and context.zip[i].
 """
@@ -41,6 +47,13 @@ ASSUMPTIONS = [
     "branches never share state and never mutate their input, so copy_buf may not change the output",
     "every branch output is a (tag, payload) pair; 13 factories: src; fc_sum, fc_acc, fc_stop(j); "
     "fr1_tuple, fr2_seq, fr_req, fr_stop(j), fr_stop_tuple(j); seq_map, seq_filter, seq_marker, seq_sum",
+    "further forms of a branch, each next to the 13 factories in lists of length 1..2 (thorough 1..3): "
+    "instances of plain user subclasses (no overridden method) of Source, FillComputeSeq, FillRequestSeq "
+    "and Sequence; a Split as a branch, for every inner branch list of length 0..2 over {map, Sum, "
+    "fill/request element, Source} except lists of Sources only (the statement does not say whether a "
+    "callable Split is a Source branch): per the Split docstring it is a fill/compute (fill/request) "
+    "branch when its branches share that type and a plain run element otherwise; the reference drives "
+    "the real inner Split through these documented methods only; inner Splits have the default bufsize",
     "two points the statement leaves open are accepted in both readings: compute() results of a "
     "fill/compute branch that signalled LenaStopFill may come where it stopped or with the final "
     "computes; on an empty flow the single invocations may come in branch order or computes last",
@@ -58,15 +71,18 @@ Split = lena.core.Split
 
 def _dom(tier):
     if tier == "thorough":
-        return dict(L=4, N=5, H=6, CL=4, ZL=4, ZN=5, ZH=5)
-    return dict(L=3, N=4, H=5, CL=3, ZL=3, ZN=4, ZH=4)
+        return dict(L=4, FL=3, N=5, H=6, CL=4, ZL=4, ZN=5, ZH=5)
+    return dict(L=3, FL=2, N=4, H=5, CL=3, ZL=3, ZN=4, ZH=4)
 
 
 def describe(tier):
     d = _dom(tier)
     return ("run: branch lists of length 1..%(L)d over 13 factories, every stop index 0..n-1 for every "
             "stopping branch, flows of length 0..%(N)d, bufsize in {1..n+1, 1000, None}, copy_buf in "
-            "{True, False}; empty Split on flows 0..%(N)d; common-type lists of length 1..%(CL)d with "
+            "{True, False}; the same for lists of length 1..%(FL)d with one of 23 further forms "
+            "(4 subclass instances, 19 nested Splits) next to the 13 factories; "
+            "empty Split on flows 0..%(N)d; common-type lists of length 1..%(CL)d (also with subclass "
+            "instances and nested Splits) with "
             "every fill/compute (fill/request) history of up to %(H)d events; Zip lists of length "
             "1..%(ZL)d, flows 0..%(ZN)d, request histories up to %(ZH)d events" % d)
 
@@ -398,8 +414,10 @@ def judge_empty(res, n, b, cb):
 # law: common-type methods
 
 COMMON = {
-    "fc": (["fc_sum", "fc_acc", "fc_stop"], "c", "compute"),
-    "fr": (["fr_req", "fr2_seq", "fr1_tuple", "fr_stop"], "r", "request"),
+    "fc": (["fc_sum", "fc_acc", "fc_stop", "fc_sub", M.nested_name(["fc_sum", "fc_sum"])],
+           "c", "compute"),
+    "fr": (["fr_req", "fr2_seq", "fr1_tuple", "fr_stop", "fr_sub", M.nested_name(["fr_req", "fr_req"])],
+           "r", "request"),
 }
 NEVER = 10 ** 6     # stop index that is never reached
 
@@ -465,6 +483,8 @@ def _build_sources(names):
     for i, nm in enumerate(names):
         if nm == "src":
             out.append(lena.core.Source(M.Gen(), M.Tagger(M.tag(i))))
+        elif nm == "src_sub":
+            out.append(M.SubSource(M.Gen(), M.Tagger(M.tag(i))))
         else:
             out.append(lena.core.Source(list(SRC3), M.Tagger(M.tag(i))))
     return out
@@ -509,12 +529,15 @@ def _zip_factories(typ):
         ("z_map_tuple", "tuple", lambda t: (M._add100, acc(t, "own"))),
     ]
     if typ == "fc":
+        fs.append(("z_sub", "subclass", lambda t: M.SubFillComputeSeq(M._add100, acc(t, "bare"))))
         fs.append(("z_sum", "tuple", lambda t: (lena.math.Sum(), M.Tagger(t))))
     else:
         # explicit sequence form; its request() has no side effects inside a lazy generator (Zip
         # stops at the shortest branch and never advances the generators of the later ones)
         fs.append(("z_req_seq", "explicit",
                    lambda t: lena.core.FillRequestSeq(acc(t, "bare"), reset=False, buffer_input=True)))
+        fs.append(("z_sub", "subclass",
+                   lambda t: M.SubFillRequestSeq(acc(t, "own"), reset=False, buffer_input=True)))
     return fs
 
 
@@ -646,20 +669,57 @@ def judge_zip(res, typ, names, hist, fields, with_none=False):
 def shards(tier):
     d = _dom(tier)
     out = [{"kind": "run-short", "bound": "run lists of length 1..2"}]
-    out += [{"kind": k, "bound": "derived laws"} for k in
-            ("empty", "common-source", "common-fc", "common-fr", "zip-fc", "zip-fr")]
+    out += [{"kind": k, "bound": "derived laws"} for k in ("empty", "common-source")]
+    for k in ("common-fc", "common-fr", "zip-fc", "zip-fr"):
+        # one shard per first branch of the list
+        out += [{"kind": k, "first": nm, "bound": "derived laws"} for nm in _derived_pool(k)]
+    for f in M.FORMS:
+        out.append({"kind": "run-forms", "form": f, "L": 2,
+                    "bound": "run lists of length 1..2 with a subclass / nested-Split branch"})
     for L in range(3, d["L"] + 1):
         for f0 in M.ORDER:
             for f1 in M.ORDER:
                 out.append({"kind": "run", "L": L, "prefix": [f0, f1],
                             "bound": "run lists of length %d" % L})
+    for L in range(3, d["FL"] + 1):
+        for f in M.FORMS:
+            for pos in range(L):
+                out.append({"kind": "run-forms", "form": f, "L": L, "pos": pos,
+                            "bound": "run lists of length %d with a subclass / nested-Split branch" % L})
     return out
 
 
-def _lists(pool, lo, hi):
+def _form_lists(p):
+    """Branch lists of one run-forms shard: the form *f* next to the 13 basic factories."""
+    f = p["form"]
+    if p["L"] == 2:
+        yield [f]
+        for g in M.ORDER:
+            yield [f, g]
+            yield [g, f]
+        # two branches of the further forms: subclass with subclass, nested Split with itself
+        for g in (M.SUBCLASS_FORMS if f in M.SUBCLASS_FORMS else [f]):
+            yield [f, g]
+    else:
+        pos = p["pos"]
+        for rest in itertools.product(M.ORDER, repeat=p["L"] - 1):
+            rest = list(rest)
+            yield rest[:pos] + [f] + rest[pos:]
+
+
+def _derived_pool(kind):
+    typ = kind[-2:]
+    if kind.startswith("common-"):
+        return list(COMMON[typ][0])
+    return [nm for nm, form, f in _zip_factories(typ)]
+
+
+def _lists(pool, lo, hi, first=None):
+    """Lists over *pool* of length lo..hi, shortest first (first: only those that begin with it)."""
     for k in range(lo, hi + 1):
         for names in itertools.product(pool, repeat=k):
-            yield list(names)
+            if first is None or names[0] == first:
+                yield list(names)
 
 
 def run_shard(p, tier):
@@ -668,6 +728,8 @@ def run_shard(p, tier):
     kind = p["kind"]
     if kind == "run-short":
         run_lists(res, _lists(M.ORDER, 1, 2), tier)
+    elif kind == "run-forms":
+        run_lists(res, _form_lists(p), tier)
     elif kind == "run":
         rest = p["L"] - len(p["prefix"])
         run_lists(res, (p["prefix"] + list(t) for t in itertools.product(M.ORDER, repeat=rest)), tier)
@@ -678,7 +740,7 @@ def run_shard(p, tier):
                     judge_empty(res, n, b, cb)
         res.sample({"law": "empty-identity", "n": 3, "bufsize": 2, "copy_buf": False}, 1)
     elif kind == "common-source":
-        for names in _lists(["src", "src_list"], 1, d["CL"] + 1):
+        for names in _lists(["src", "src_list", "src_sub"], 1, d["CL"] + 1):
             for ncalls in (1, 2):
                 for b in ("default", 1, None):
                     judge_common_source(res, names, ncalls, b)
@@ -687,15 +749,15 @@ def run_shard(p, tier):
     elif kind in ("common-fc", "common-fr"):
         typ = kind[-2:]
         pool, letter, _ = COMMON[typ]
-        for names in _lists(pool, 1, d["CL"]):
+        for names in _lists(pool, 1, d["CL"], p["first"]):
             for hist in _histories("f" + letter, d["H"]):
                 for cb in (True, False):
                     judge_common(res, typ, names, hist, cb)
             # the Split's own bufsize must not matter for fill / compute / request
             for b in (1, None):
                 judge_common(res, typ, names, "ff" + letter + "f" + letter, True, b)
-        res.sample({"law": kind, "branches": pool[:2], "history": "ff" + letter + "f" + letter,
-                    "copy_buf": True, "bufsize": "default"}, 1)
+        res.sample({"law": kind, "branches": [p["first"], pool[0]],
+                    "history": "ff" + letter + "f" + letter, "copy_buf": True, "bufsize": "default"}, 1)
     elif kind in ("zip-fc", "zip-fr"):
         typ = kind[-2:]
         pool = [nm for nm, form, f in _zip_factories(typ)]
@@ -703,13 +765,14 @@ def run_shard(p, tier):
             hists = ["f" * n + "t" for n in range(d["ZN"] + 1)] + ["fftft", "tfft"]
         else:
             hists = list(_histories("ft", d["ZH"]))
-        for names in _lists(pool, 1, d["ZL"]):
+        for names in _lists(pool, 1, d["ZL"], p["first"]):
             for hist in hists:
                 for fields in (False, True):
                     judge_zip(res, typ, names, hist, fields)
                     if hist.count("f") >= 2:
                         judge_zip(res, typ, names, hist, fields, with_none=True)
-        res.sample({"law": kind, "branches": pool[:2], "history": "fft", "fields": False}, 1)
+        res.sample({"law": kind, "branches": [p["first"], pool[0]], "history": "fft",
+                    "fields": False}, 1)
     else:
         raise ValueError(kind)
     return res
@@ -743,7 +806,9 @@ def replay(case):
 
 
 LEVEL_TEXT = ("bounded exhaustive exploration: every branch list of length 1..3 (thorough: 1..4) over 13 "
-              "tagged branch factories of the four kinds, with LenaStopFill at every fill index, every "
+              "tagged branch factories of the four kinds (and lists of length 1..2 (1..3) in which one "
+              "branch is an instance of a user subclass of its sequence class or a nested Split), "
+              "with LenaStopFill at every fill index, every "
               "bufsize in {1..n+1, 1000, None}, both copy_buf and every flow length 0..4 (0..5) is run "
               "on the real Split and compared with an independent interpreter of the documented "
               "block/branch schedule that drives fresh real branch objects; bufsize-independence, the "
@@ -752,6 +817,7 @@ LEVEL_TEXT = ("bounded exhaustive exploration: every branch list of length 1..3 
 LEVEL_NOTE = ("holds for the enumerated alphabet only; flows are distinct integers; branches that mutate "
               "shared values (C04), laziness of block reading (C02) and FillRequest's own buffering "
               "(C16) are outside this check; two readings are accepted where the statement is open")
-TECHNIQUE = ("exhaustive enumeration of branch lists x stop indices x bufsize x copy_buf x flow length on "
+TECHNIQUE = ("exhaustive enumeration of branch lists (kinds x forms) x stop indices x bufsize x copy_buf x "
+             "flow length on "
              "the real code against a reference interpreter of the documented schedule and differential "
              "relations")
